@@ -118,13 +118,15 @@ Definition vstep (Q : vords) (t : nat) (g : vgst) (l : vlst) : option (vgst * vl
       let b := hd_borrowed (nthN (vhist g) j 0) in
       Some (set_vg g u (vhist g) (vlastrel g) (vrelby g) orc (vrace_used g),
             set_v l (set_u s p UIdle (uheld s)) j (vapos l) (vfresh l),
-            [ERet (rc_borrowed (if N.eqb b LOCK_ACQUIRE then 0 else b))])
+            [EAcc 30 B_HEAD 0 KLoad Relaxed Relaxed (nthN (vhist g) j 0) 0 true;
+             ERet (rc_borrowed (if N.eqb b LOCK_ACQUIRE then 0 else b))])
     | UIsLocked :: p =>
       let '(k, orc) := next_choice g in
       let j := stale (updates u) (vspos l) k in
       Some (set_vg g u (vhist g) (vlastrel g) (vrelby g) orc (vrace_used g),
             set_v l (set_u s p UIdle (uheld s)) j (vapos l) (vfresh l),
-            [ERet (rc_is_locked (N.eqb (hd_borrowed (nthN (vhist g) j 0)) LOCK_ACQUIRE))])
+            [EAcc 31 B_HEAD 0 KLoad Relaxed Relaxed (nthN (vhist g) j 0) 0 true;
+             ERet (rc_is_locked (N.eqb (hd_borrowed (nthN (vhist g) j 0)) LOCK_ACQUIRE))])
     | [] => None
     end
   | AcqRead ov u0 =>
